@@ -95,6 +95,10 @@ Definition is_ascii (s : bytes) : bool := forallb (fun c => (bN c <? 128)%N) s.
 Inductive outcome (A : Type) := Sent (x : A) | Rejected | Unsupported.
 Arguments Sent {A} x. Arguments Rejected {A}. Arguments Unsupported {A}.
 
+(* checkRequestCookie (http_request.go): the name is a token, the value holds cookie-octets only *)
+Definition valid_cookie (c : bytes * bytes) : bool :=
+  valid_method (fst c) && forallb valid_cookie_value_byte (snd c).
+
 (* everything up to the protocol writers: the http.Request the transport works on *)
 Definition to_creq (a : areq) : outcome creq :=
   let h0 := merge_headers (a_rhdr a) (a_chdr a) in
@@ -105,7 +109,10 @@ Definition to_creq (a : areq) : outcome creq :=
       let h1 := body_headers a h0 in
       let host := let o := header_get h1 (bs "Host") in if is_nil o then uhost else o in
       let h2 := fold_left add_cookie (a_rck a ++ a_cck a) h1 in
-      if negb (valid_headers h2) then Rejected
+      if negb (forallb valid_cookie (a_rck a ++ a_cck a)) then Rejected      (* checkRequestCookie *)
+      else if negb (valid_headers h2) then Rejected
+      else if is_nil (a_method a) then Unsupported        (* "" means GET; not generated *)
+      else if negb (valid_method (a_method a)) then Rejected   (* before the forced-version switch *)
       else Sent (mk_creq (a_method a) host target scheme h2 (out_len a) (a_compress a))
   end.
 
